@@ -571,6 +571,30 @@ theorem disabled_command_touches_no_backend (t : Table) (w : World) (c : Nat) (i
   ⟨(execS_calls t w c inTx inv ini f res calls ini' h).1,
    (execS_calls t w c inTx inv ini f res calls ini' h).2.1⟩
 
+/-- **Every command handed to a backend is ITSELF enabled for that backend** (fix D46) — not only the
+public command it was issued under.  Inside `invalidate_further()` an enabled read is replaced by a
+deletion that the middleware hands to the backend directly; it does so only if the DELETING command
+(`delete` for `get` / `incr`, `delete_many` for `get_many`, `delete_match` for `get_match`) is enabled
+for the receiver in the caller's context.  So for every public command, control state, environment:
+each command a backend object receives is enabled for it — a disabled `delete` never deletes. -/
+theorem issued_command_is_itself_enabled (t : Table) (w : World) (c : Nat) (inTx inv : Bool)
+    (ini : List Nat) (f : FCmd) (res : Res) (calls : List BCall) (ini' : List Nat)
+    (h : execS t w c inTx inv ini f = some (res, calls, ini')) :
+    ∀ cl, BCall.cmd cl ∈ calls → isDisable w c cl.target.backend [cl.cmd] = false := by
+  intro cl hcl
+  have := execS_cmdOk t w c inTx inv ini f res calls ini' h _ hcl
+  simpa [BCall.cmdOk, Target.ctl_eq_backend] using this
+
+/-- a read whose replacing deletion is disabled: answered as a miss, nothing issued, nothing initialised -/
+theorem invalidate_further_respects_disabled_delete (t : Table) (w : World) (c : Nat) (inTx : Bool)
+    (ini : List Nat) (cmd del : Cmd) (res : Res) (key : List Nat) (b : Nat)
+    (hb : t.getBackend key = some b) (hi : invalidateOf cmd = some (del, res))
+    (hen : isDisable w c b [cmd] = false) (hd : isDisable w c b [del] = true) :
+    execS t w c inTx true ini (.keyed cmd key) = some (res, [], ini) := by
+  simp only [execS, hb, Option.map_some]
+  rw [stackCall_eq]
+  simp [target_ctl_targetOf, hen, hd, hi]
+
 /-- the short circuit in every environment: nothing issued, nothing initialised, default shape -/
 theorem disabled_short_circuit_any_env (t : Table) (w : World) (c : Nat) (inTx inv : Bool)
     (ini : List Nat) (cmd : Cmd) (key : List Nat) (b : Nat) (hb : t.getBackend key = some b)
@@ -644,8 +668,8 @@ state and context, in or outside a transaction and `invalidate_further()`, initi
 not.  (i) Each backend call (command, replacing deletion, `init()`) issued under the facade command `f`
 goes to a registered backend that has `f` ENABLED in the caller's context and that is the
 longest-prefix backend of every key handed over.  (ii) Each call of the on-remove callback is the
-`set_remove` of one tag key, handed to the backend registered for `_tag:`, which has `set_remove`
-ENABLED in the caller's context.  Contrapositive: a disabled command — or a disabled (tags) backend —
+`set_remove` of one tag key, handed to the backend registered — at that moment: no memo (fix D48) — under the
+longest prefix of that tag key, which has `set_remove` ENABLED in the caller's context.  Contrapositive: a disabled command — or a disabled (tags) backend —
 is never issued anything, also not behind the caller's back. -/
 theorem composite_calls_enabled_and_routed (t : Table) (w : World) (c : Nat) (inTx inv : Bool) (env : Env)
     (p : Prog) (ini : List Nat) (n : Nat) :
@@ -654,7 +678,7 @@ theorem composite_calls_enabled_and_routed (t : Table) (w : World) (c : Nat) (in
         ∀ k ∈ x.2.keys, t.getBackend k = some x.2.backend) ∧
     (∀ cl ∈ PEv.cbcalls (Prog.run t w c inTx inv env p ini n).1,
         cl.cmd = .setRemove ∧ isDisable w c cl.target.backend [.setRemove] = false ∧
-        t.getBackend tagPrefix = some cl.target.backend ∧ ∃ tag, cl.keys = [tagKey tag]) := by
+        (∃ tag, cl.keys = [tagKey tag]) ∧ ∀ k ∈ cl.keys, t.getBackend k = some cl.target.backend) := by
   have hok := Prog.run_ok t w c inTx inv env p ini n
   constructor
   · rintro ⟨f, bc⟩ hx
@@ -662,8 +686,13 @@ theorem composite_calls_enabled_and_routed (t : Table) (w : World) (c : Nat) (in
     exact (hok _ hev).1 bc hbc
   · intro cl hcl
     obtain ⟨f, calls, cbs, hev, hc⟩ := mem_cbcalls hcl
-    obtain ⟨h1, _, h3, h4, h5⟩ := (hok _ hev).2 cl hc
-    exact ⟨h1, h4, h3, h5⟩
+    obtain ⟨h1, _, h3, tag, h4, h5⟩ := (hok _ hev).2 cl hc
+    refine ⟨h1, h3, ⟨tag, h4⟩, ?_⟩
+    intro k hk
+    rw [h4] at hk
+    simp only [List.mem_singleton] at hk
+    subst hk
+    exact h5
 
 /-- the composites of cashews — a single command, `set(tags=)`, `incr(tags=)`, `get_or_set`,
 `delete_tags`, `lock`, `@invalidate` — are such programs: the same for each of them -/
@@ -674,14 +703,29 @@ theorem cashews_composites_enabled_and_routed (t : Table) (w : World) (c : Nat) 
         ∀ k ∈ x.2.keys, t.getBackend k = some x.2.backend) ∧
     (∀ cl ∈ PEv.cbcalls (runComp t w c inTx inv env ini cm).1,
         cl.cmd = .setRemove ∧ isDisable w c cl.target.backend [.setRemove] = false ∧
-        t.getBackend tagPrefix = some cl.target.backend ∧ ∃ tag, cl.keys = [tagKey tag]) :=
+        (∃ tag, cl.keys = [tagKey tag]) ∧ ∀ k ∈ cl.keys, t.getBackend k = some cl.target.backend) :=
   composite_calls_enabled_and_routed t w c inTx inv env cm.prog ini 0
 
-/-- **The callback's `set_remove` is routed by longest prefix too**, provided no registered prefix
-reaches into the tag part of the key (every registered prefix of `_tag:<tag>` is a prefix of `_tag:`):
-then `_tag:<tag>` and `_tag:` are served by the same backend, the one the callback asks — and the one
-`set_add("_tag:<tag>", …)` of a tagged write was routed to.  (The callback resolves the backend of
-exactly `_tag:`; with a registered prefix such as `_tag:u` the two differ: not generated, see `partial`.) -/
+/-- **The tag bookkeeping follows the CURRENT registrations** (fix D48: no memo).  After any history of
+`setup()` / `setup_tags_backend()` calls — `_tag:` set up late, set up again, a prefix reaching into the
+tag part added — every `set_remove` the on-remove callback issues goes to the backend registered LAST
+under the longest prefix, among all prefixes ever registered, of its tag key: the same backend a
+`set_add` of that tag key is routed to at that moment. -/
+theorem remove_callback_follows_current_registrations (regs : List (List Nat × Nat)) (w : World) (c : Nat)
+    (inTx inv : Bool) (env : Env) (p : Prog) (ini : List Nat) (n : Nat) :
+    ∀ cl ∈ PEv.cbcalls (Prog.run (Table.ofList regs) w c inTx inv env p ini n).1, ∀ k ∈ cl.keys,
+      ∃ q, lastReg regs q = some cl.target.backend ∧ q <+: k ∧
+        ∀ r ∈ regs.map (·.1), r <+: k → r.length ≤ q.length := by
+  intro cl hcl k hk
+  have := ((composite_calls_enabled_and_routed (Table.ofList regs) w c inTx inv env p ini n).2 cl hcl).2.2.2 k hk
+  exact (route_follows_current_registrations regs k _).1 this
+
+/-- **When all tag sets live in one backend.**  The callback (like the tagged writes) routes every tag key
+`_tag:<tag>` by its own longest prefix.  Provided no registered prefix reaches into the tag part of the
+key (every registered prefix of `_tag:<tag>` is a prefix of `_tag:`), that is the backend of `_tag:` —
+the one `cache.tags_backend` / `setup_tags_backend()` name.  (No longer a hypothesis of the routing
+theorem above: with a registered prefix such as `_tag:u` the tag sets of `u…` simply live elsewhere,
+for the writes and for the callback alike.) -/
 theorem remove_callback_routed_by_longest_prefix (regs : List (List Nat × Nat)) (tag : List Nat)
     (h : ∀ q ∈ (Table.ofList regs).prefixes, q <+: tagKey tag → q <+: tagPrefix) :
     (Table.ofList regs).getBackend (tagKey tag) = (Table.ofList regs).getBackend tagPrefix := by
@@ -732,8 +776,8 @@ theorem fully_disabled_composite_touches_nothing (t : Table) (w : World) (c : Na
     | nil => rfl
     | cons cl r =>
       exfalso
-      obtain ⟨_, g2, g3, _⟩ := h2 cl (by simp [hc])
-      rw [full_disables_all hfull (getBackend_mem_backends g3)] at g2
+      obtain ⟨_, g2, ⟨tag, g3⟩, g4⟩ := h2 cl (by simp [hc])
+      rw [full_disables_all hfull (getBackend_mem_backends (g4 (tagKey tag) (by simp [g3])))] at g2
       cases g2
 
 /-- **`cache.lock` while `set_lock` is disabled: no locking, the block runs, nothing is issued** (and
@@ -1035,9 +1079,9 @@ example : (Table.ofList ([([97], 1), ([], 0)] ++ [([97], 7)])).getBackend [97, 9
 example : execS T1 Wfull 0 false true [] (.keyed .get [107]) = some (.dflt, [], []) := by decide
 example : execS T1 Wfull 0 false true [] (.getMany [[107], [108]]) = some (.many [.dflt, .dflt], [], []) := by
   decide
--- ... while with the opposite wrapping order (disable check innermost) the same disabled `get`
--- initialises the backend and, inside `invalidate_further()`, deletes the key
-example : runChain Wfull 0 true (.raw 0) .get [[107]] (chainOf defaultMws.reverse) [] 0 =
+-- ... while with the opposite wrapping order (disable check innermost) a disabled `get` (only `get` is disabled:
+-- `Wdis`) initialises the backend and, inside `invalidate_further()`, deletes the key
+example : runChain Wdis 0 true (.raw 0) .get [[107]] (chainOf defaultMws.reverse) [] 0 =
     (.dflt, [.init (.raw 0), .cmd ⟨.raw 0, .delete, [[107]]⟩], [0]) := by decide
 example : runChain Wfull 0 false (.raw 0) .get [[107]] (chainOf defaultMws.reverse) [] 0 =
     (.dflt, [.init (.raw 0)], [0]) := by decide
@@ -1051,6 +1095,12 @@ example : execS T1 (World.init true) 0 true true [0] (.keyed .get [107]) =
     some (.dflt, [.cmd ⟨.tx 0, .delete, [[107]]⟩], [0]) := by decide
 example : execS T1 (World.init true) 0 false true [0] (.getMany [[107], [108]]) =
     some (.many [.missing, .missing], [.cmd ⟨.raw 0, .deleteMany, [[107], [108]]⟩], [0]) := by decide
+-- D46: `delete` alone is disabled; get("k") inside invalidate_further() is answered as a miss and deletes nothing;
+-- get_many with `delete_many` disabled likewise
+example : execS T1 (ctlRun T1 (World.init true) [.disable 0 [.delete] []]) 0 false true [0] (.keyed .get [107]) =
+    some (.dflt, [], [0]) := by decide
+example : execS T1 (ctlRun T1 (World.init true) [.disable 0 [.deleteMany] []]) 0 false true [0] (.getMany [[107], [108]]) =
+    some (.many [.missing, .missing], [], [0]) := by decide
 -- `set` is not a retrieve command: `invalidate_further()` leaves it alone
 example : execS T1 (World.init true) 0 false true [0] (.keyed .set [107]) =
     some (.resp 0, [.cmd ⟨.raw 0, .set, [[107]]⟩], [0]) := by decide
@@ -1154,9 +1204,17 @@ example : (runComp TT (World.init true) 0 false true envT [0, 1] (.getOrSet [117
 -- the hypothesis of `remove_callback_routed_by_longest_prefix` holds for `TT` ...
 example : TT.getBackend (tagKey [116]) = TT.getBackend tagPrefix :=
   remove_callback_routed_by_longest_prefix [([], 0), (tagPrefix, 1)] [116] (by decide)
--- ... and is needed: with a registered prefix "_tag:t" the tag key and "_tag:" have different backends
+-- ... with a registered prefix "_tag:t" the tag key and "_tag:" have different backends: the tagged write and the
+-- callback both follow the tag key (backend 2)
+example : (runComp (Table.ofList [([], 0), (tagPrefix, 1), (tagKey [116], 2)]) (World.init true) 0 false false envRm
+    [0, 1, 2] (.one (.keyed .delete [117]))).1 =
+    [.sub (.keyed .delete [117]) [.cmd ⟨.raw 0, .delete, [[117]]⟩] [⟨.raw 2, .setRemove, [tagKey [116]]⟩]] := by decide
 example : (Table.ofList [([], 0), (tagPrefix, 1), (tagKey [116], 2)]).getBackend (tagKey [116]) = some 2 ∧
     (Table.ofList [([], 0), (tagPrefix, 1), (tagKey [116], 2)]).getBackend tagPrefix = some 1 := by decide
+-- D48: "_tag:" is set up AFTER the default backend served the tag sets (backend 1 registered last): the callback asks backend 1
+example : (runComp (Table.ofList ([([], 0)] ++ [(tagPrefix, 1)])) (World.init true) 0 false false envRm [0, 1]
+    (.one (.keyed .delete [117]))).1 =
+    [.sub (.keyed .delete [117]) [.cmd ⟨.raw 0, .delete, [[117]]⟩] [⟨.raw 1, .setRemove, [tagKey [116]]⟩]] := by decide
 -- fully disabled cache: nothing at all
 example : facadeFullDisable TT (ctlRun TT (World.init true) [.disable 0 [] [], .disable 0 [] tagPrefix]) 0 = true := by
   decide
